@@ -409,7 +409,115 @@ func call(fn *ssa.Function, args []value, free []value) value {
 			return mergeCall(fn, args, free)
 		}
 	}
+	if !cfg.NoMerge && len(free) == 0 && autoMergeable(fn) && scalarSymbolic(args) {
+		// small side-effect-free helpers over scalars (a hand-written byte classifier or
+		// case folder): their branches become data (if-then-else terms) instead of forks
+		return mergeCall(fn, args, free)
+	}
 	return callBody(fn, args, free)
+}
+
+// all arguments scalars or strings, at least one of them symbolic
+func scalarSymbolic(args []value) bool {
+	sym := false
+	for _, a := range args {
+		switch x := a.(type) {
+		case bool, int64, string:
+		case *term, symStr, *tab:
+			sym = true
+		case *union:
+			_ = x
+			return false
+		default:
+			return false
+		}
+	}
+	return sym
+}
+
+var autoMergeCache = map[*ssa.Function]int{} // 1 yes, 2 no, 3 in progress
+
+// a function is merged automatically when it (transitively) only computes on scalars and
+// strings: no stores, allocations, maps, channels, goroutines, defers or interface calls, and
+// every static callee is such a function or a modelled pure string helper
+func autoMergeable(fn *ssa.Function) bool {
+	switch autoMergeCache[fn] {
+	case 1:
+		return true
+	case 2, 3:
+		return false
+	}
+	autoMergeCache[fn] = 3
+	ok := autoMergeCheck(fn)
+	if ok {
+		autoMergeCache[fn] = 1
+	} else {
+		autoMergeCache[fn] = 2
+	}
+	return ok
+}
+
+var pureExternals = map[string]bool{"strings.EqualFold": true, "strings.HasPrefix": true, "strings.HasSuffix": true, "strings.ToLower": true, "strings.ToUpper": true,
+	"unicode.IsLetter": true, "unicode.IsDigit": true, "unicode.IsUpper": true, "unicode.IsLower": true, "unicode.ToLower": true, "unicode.ToUpper": true}
+
+func scalarType(t types.Type) bool {
+	switch u := t.Underlying().(type) {
+	case *types.Basic:
+		return u.Info()&(types.IsBoolean|types.IsInteger|types.IsString) != 0
+	case *types.Tuple:
+		for i := 0; i < u.Len(); i++ {
+			if !scalarType(u.At(i).Type()) {
+				return false
+			}
+		}
+		return true
+	}
+	return false
+}
+
+func autoMergeCheck(fn *ssa.Function) bool {
+	if fn.Blocks == nil || fn.Pkg == nil || !interpPkgs[fn.Pkg.Pkg.Path()] || len(fn.FreeVars) > 0 || strings.HasPrefix(fn.Name(), "v") || strings.HasPrefix(fn.Name(), "VH_") {
+		return false
+	}
+	n := 0
+	for _, p := range fn.Params {
+		if !scalarType(p.Type()) {
+			return false
+		}
+	}
+	if !scalarType(fn.Signature.Results()) {
+		return false
+	}
+	for _, b := range fn.Blocks {
+		for _, in := range b.Instrs {
+			n++
+			switch x := in.(type) {
+			case *ssa.Phi, *ssa.BinOp, *ssa.UnOp, *ssa.If, *ssa.Jump, *ssa.Return, *ssa.Convert, *ssa.ChangeType, *ssa.Index, *ssa.Slice, *ssa.DebugRef, *ssa.Extract:
+				if u, ok := in.(*ssa.UnOp); ok && (u.Op == token.MUL || u.Op == token.ARROW) {
+					return false
+				}
+			case *ssa.Call:
+				if x.Call.IsInvoke() {
+					return false
+				}
+				switch f := x.Call.Value.(type) {
+				case *ssa.Builtin:
+					if f.Name() != "len" {
+						return false
+					}
+				case *ssa.Function:
+					if !pureExternals[f.String()] && !(f != fn && autoMergeable(f)) {
+						return false
+					}
+				default:
+					return false
+				}
+			default:
+				return false
+			}
+		}
+	}
+	return n <= 400
 }
 
 func anySymbolic(args []value) bool {
@@ -551,6 +659,30 @@ func run(fr *frame) value {
 				switch x.Op {
 				case token.MUL:
 					fr.set(x, deref(a))
+				case token.ARROW:
+					ch, ok := a.(*chanVal)
+					if !ok || ch == nil {
+						panic(unsupported{"receive on a nil or unmodelled channel"})
+					}
+					if len(ch.buf) == 0 {
+						runPendingGoroutines()
+					}
+					et := x.X.Type().Underlying().(*types.Chan).Elem()
+					var v value
+					got := false
+					if len(ch.buf) > 0 {
+						v, got = ch.buf[0], true
+						ch.buf = ch.buf[1:]
+					} else if ch.closed {
+						v = zero(et)
+					} else {
+						panic(unsupported{"receive that blocks forever in the sequentialised schedule"})
+					}
+					if x.CommaOk {
+						fr.set(x, tuple{v, got})
+					} else {
+						fr.set(x, v)
+					}
 				case token.NOT:
 					fr.set(x, notVal(a))
 				case token.SUB:
@@ -631,6 +763,39 @@ func run(fr *frame) value {
 				fr.set(x, doRange(fr.get(x.X)))
 			case *ssa.Next:
 				fr.set(x, doNext(x, fr.get(x.Iter)))
+			case *ssa.Go:
+				g := pendingGo{}
+				for _, a := range x.Call.Args {
+					g.args = append(g.args, fr.get(a))
+				}
+				if x.Call.IsInvoke() {
+					panic(unsupported{"go statement on an interface method"})
+				}
+				switch f := x.Call.Value.(type) {
+				case *ssa.Function:
+					g.fn = &closure{fn: f}
+				default:
+					cl, ok := fr.get(x.Call.Value).(*closure)
+					if !ok || cl == nil {
+						panic(unsupported{"go statement on " + describe(fr.get(x.Call.Value))})
+					}
+					g.fn = cl
+				}
+				goQueue = append(goQueue, g)
+				goSpawned++
+			case *ssa.MakeChan:
+				fr.set(x, &chanVal{})
+			case *ssa.Send:
+				ch, ok := fr.get(x.Chan).(*chanVal)
+				if !ok || ch == nil {
+					panic(unsupported{"send on a nil or unmodelled channel"})
+				}
+				if ch.closed {
+					panic(rtp("send on closed channel"))
+				}
+				ch.buf = append(ch.buf, copyVal(fr.get(x.X)))
+			case *ssa.Select:
+				panic(unsupported{"select statement"})
 			case *ssa.Defer:
 				// deferred calls are collected and run at RunDefers
 				fr.defer_(x, fr)
@@ -667,6 +832,30 @@ func run(fr *frame) value {
 				panic(unsupported{fmt.Sprintf("instruction %T in %s", in, fr.fn)})
 			}
 		}
+	}
+}
+
+// Goroutines are sequentialised: a spawned goroutine is queued and all queued goroutines run
+// to completion, in spawn order, at the first blocking operation (channel receive on an
+// empty channel, WaitGroup.Wait) - one of the schedules the program admits; data races are
+// the native race-detector run's subject (C13), not this model's.
+type pendingGo struct {
+	fn   *closure
+	args []value
+}
+type chanVal struct {
+	buf    []value
+	closed bool
+}
+
+var goQueue []pendingGo
+var goSpawned int
+
+func runPendingGoroutines() {
+	for len(goQueue) > 0 {
+		g := goQueue[0]
+		goQueue = goQueue[1:]
+		call(g.fn.fn, g.args, g.fn.env)
 	}
 }
 
@@ -1306,6 +1495,16 @@ func doBuiltin(fr *frame, f *ssa.Builtin, c *ssa.CallCommon, args []value) value
 				break
 			}
 		}
+		return nil
+	case "close":
+		ch, ok := args[0].(*chanVal)
+		if !ok || ch == nil {
+			panic(rtp("close of nil channel"))
+		}
+		if ch.closed {
+			panic(rtp("close of closed channel"))
+		}
+		ch.closed = true
 		return nil
 	case "print", "println":
 		rs.outputs = append(rs.outputs, "builtin "+f.Name())
